@@ -151,7 +151,10 @@ func numeralJSON(s string) interface{} {
 	return map[string]interface{}{"neg": n.Neg, "d": n.D, "e": n.E}
 }
 
-// MarshalJSON renders the value in the encoding of Values.tla.
+var payloadField = map[string]string{"S": "s", "B": "b", "N": "n", "BOOL": "bool", "NULL": "null", "L": "l", "M": "m",
+	"SS": "ss", "NS": "ns", "BS": "bs"}
+
+// MarshalJSON renders the value in the encoding of Values.tla: {"t": tag, <payload field of the tag>: payload}.
 func (v Value) MarshalJSON() ([]byte, error) {
 	var p interface{}
 	switch v.T {
@@ -188,9 +191,9 @@ func (v Value) MarshalJSON() ([]byte, error) {
 		}
 		p = out
 	default:
-		p = 0
+		return json.Marshal(map[string]interface{}{"t": v.T, "none": 0})
 	}
-	return json.Marshal(map[string]interface{}{"t": v.T, "v": p})
+	return json.Marshal(map[string]interface{}{"t": v.T, payloadField[v.T]: p})
 }
 
 func isEmptyArray(raw json.RawMessage) bool {
@@ -199,12 +202,20 @@ func isEmptyArray(raw json.RawMessage) bool {
 
 // UnmarshalJSON reads the encoding of Values.tla (as produced by TLC's ToJson or by this package).
 func (v *Value) UnmarshalJSON(data []byte) error {
-	var w struct {
-		T string          `json:"t"`
-		V json.RawMessage `json:"v"`
-	}
-	if err := json.Unmarshal(data, &w); err != nil {
+	var raw map[string]json.RawMessage
+	if err := json.Unmarshal(data, &raw); err != nil {
 		return err
+	}
+	var w struct {
+		T string
+		V json.RawMessage
+	}
+	if err := json.Unmarshal(raw["t"], &w.T); err != nil {
+		return err
+	}
+	w.V = raw[payloadField[w.T]]
+	if w.V == nil && w.T != "NULL" {
+		return fmt.Errorf("value of type %q without payload field", w.T)
 	}
 	v.T = w.T
 	switch w.T {
